@@ -2,3 +2,4 @@ import GffProofs.Lemmas.SplitJoin
 import GffProofs.Props.C12
 import GffProofs.Props.C09
 import GffProofs.Props.C08a
+import GffProofs.Props.C08b
